@@ -77,6 +77,11 @@ class Ctx:
         self.rand_error = open(re_).read() if os.path.exists(re_) else None
         rr = os.path.join(self.dir, "rand_gen", "REJECTED.txt")
         self.rand_rejected = [l.split("|", 2) for l in open(rr).read().splitlines() if l.strip()] if os.path.exists(rr) else []
+        def _lines(nm):
+            q = os.path.join(self.dir, "corpus_gen", nm)
+            return [l.split("|", 2) for l in open(q).read().splitlines() if l.strip()] if os.path.exists(q) else None
+        self.must_reject_accepted = _lines("MUST_REJECT_ACCEPTED.txt")
+        self.must_reject_refused = _lines("MUST_REJECT_REFUSED.txt")
         rj = os.path.join(self.dir, "corpus_gen", "REJECTED.txt")
         self.corpus_rejected = [l.split("|", 2) for l in open(rj).read().splitlines() if l.strip()] if os.path.exists(rj) else []
 
